@@ -2,14 +2,19 @@ package props
 
 import (
 	"fmt"
+	"go/ast"
+	"go/constant"
 	"go/types"
 	"sort"
 	"strings"
 
 	"voicheck/econst"
 	"voicheck/edt"
+	"voicheck/egvn"
 	"voicheck/load"
 	"voicheck/report"
+
+	"golang.org/x/tools/go/packages"
 )
 
 // C13 — Merlin v1.0 over STROBE-128/1600: framing of every operation,
@@ -490,7 +495,7 @@ func checkCloneTypes(p *load.Program, rule *report.Rule) {
 func init() {
 	Registry["C13"] = func(c *Ctx) {
 		run := c.Run
-		run.Explanation = "E-SEQ/E-DT + types + siblings: every Merlin operation performs exactly the STROBE operation sequence of Merlin v1.0 (meta-AD(label), meta-AD(le32(len) of the SAME buffer, more), then AD/PRF/KEY; every RNG read — also a zero-length one — is framed; Finalize = meta-AD(\"rng\"), KEY(32 entropy bytes); NewTranscript = STROBE(\"Merlin v1.0\") + dom-sep); STROBE: flag values of AD/meta-AD/KEY/PRF, PRF zeroes its destination, KEY works on a copy, operate begins a new operation or continues with equal flags, beginOp absorbs [old_begin, flags] with forceF exactly for C operations, runF pads exactly when initialised and resets pos/posBegin, duplex forces the permutation at its end exactly when forceF and pos != 0; the cloned types are plain data; the Go Keccak-f[1600] equals, instruction by instruction, the permutation of the repository's own dependency golang.org/x/crypto/sha3 (sibling implementation), round constants by value."
+		run.Explanation = "E-SEQ/E-DT + types + siblings: every Merlin operation performs exactly the STROBE operation sequence of Merlin v1.0 (meta-AD(label), meta-AD(le32(len) of the SAME buffer, more), then AD/PRF/KEY; every RNG read — also a zero-length one — is framed; Finalize = meta-AD(\"rng\"), KEY(32 entropy bytes); NewTranscript = STROBE(\"Merlin v1.0\") + dom-sep); STROBE: flag values of AD/meta-AD/KEY/PRF, PRF zeroes its destination, KEY works on a copy, operate begins a new operation or continues with equal flags, beginOp absorbs [old_begin, flags] with forceF exactly for C operations, runF pads exactly when initialised and resets pos/posBegin, duplex forces the permutation at its end exactly when forceF and pos != 0; the cloned types are plain data; the Go Keccak-f[1600] computes, for each of the 25 state words, the same canonical expression (global value numbering: xor/and/or normal forms, rotations recognised from either idiom, loop unrolled on concrete counters, data symbolic) as the permutation of the repository's own dependency golang.org/x/crypto/sha3 (sibling implementation), round constants by value."
 		run.NotDecided = []string{"conformance of the duplex byte loop on every history (block-boundary arithmetic across iterations)", "that different histories give different challenges (cryptographic)", "the amd64 Keccak assembly beyond its round constants and the assembly lint (C08/C20)"}
 		run.Exhaustive = true
 		if !c.Preload("amd64", "purego") {
@@ -523,17 +528,83 @@ func init() {
 		case theirs == nil || len(theirs.Blocks) == 0:
 			kk.Fail("-", "golang.org/x/crypto/sha3.keccakF1600", "the dependency's pure-Go permutation is not part of this configuration: sibling unavailable", nil)
 		default:
-			if d := ssaEqual(mine, theirs); d != "" {
-				kk.Fail(pg.Pos(mine.Pos()), "internal/strobe.keccakF1600", "differs from golang.org/x/crypto/sha3.keccakF1600: "+d, nil)
-			} else {
-				kk.OK("internal/strobe.keccakF1600")
-				n := 0
-				for _, b := range mine.Blocks {
-					n += len(b.Instrs)
+			tab := egvn.NewTable()
+			rcMine, err1 := constTable(pg.Pkg("internal/strobe"), "rc")
+			rcTheirs, err2 := constTable(pg.All["golang.org/x/crypto/sha3"], "rc")
+			var outA, outB []*egvn.Node
+			var errA, errB error
+			if err1 == nil && err2 == nil {
+				outA, errA = egvn.Eval(tab, mine, 25, map[string][]uint64{"rc": rcMine}, 200000)
+				outB, errB = egvn.Eval(tab, theirs, 25, map[string][]uint64{"rc": rcTheirs}, 200000)
+			}
+			switch {
+			case err1 != nil || err2 != nil:
+				kk.Fail(pg.Pos(mine.Pos()), "internal/strobe.keccakF1600", fmt.Sprintf("round-constant table cannot be read: %v %v", err1, err2), nil)
+			case errA != nil:
+				kk.Fail(pg.Pos(mine.Pos()), "internal/strobe.keccakF1600", "value numbering cannot follow the routine: "+errA.Error(), nil)
+			case errB != nil:
+				kk.Fail(pg.Pos(mine.Pos()), "internal/strobe.keccakF1600", "value numbering cannot follow the reference routine: "+errB.Error(), nil)
+			default:
+				bad := -1
+				for i := range outA {
+					if outA[i] != outB[i] {
+						bad = i
+						break
+					}
 				}
-				run.Sample(map[string]any{"keccak sibling": "golang.org/x/crypto/sha3.keccakF1600", "instructions compared": n})
+				if bad >= 0 {
+					kk.Fail(pg.Pos(mine.Pos()), "internal/strobe.keccakF1600", fmt.Sprintf("state word %d after the 24 rounds is a different function of the input state than in golang.org/x/crypto/sha3.keccakF1600: %s vs %s", bad, egvn.Describe(outA[bad], 3), egvn.Describe(outB[bad], 3)), nil)
+				} else {
+					kk.OK("internal/strobe.keccakF1600")
+					run.Sample(map[string]any{"keccak sibling": "golang.org/x/crypto/sha3.keccakF1600", "state words compared": len(outA), "expression DAG nodes": tab.Size(), "method": "global value numbering with xor/and/or normal forms and rotation recognition; loop counters concrete, data symbolic"})
+				}
 			}
 		}
 		econst.CheckNamed(run, pg, "CONST", "internal/strobe.rc")
 	}
+}
+
+// constTable reads a package-level table of integer constants (a composite
+// literal whose elements are constant expressions) from the typed syntax.
+func constTable(pk *packages.Package, name string) ([]uint64, error) {
+	if pk == nil {
+		return nil, fmt.Errorf("package not loaded")
+	}
+	for _, f := range pk.Syntax {
+		for _, d := range f.Decls {
+			gd, ok := d.(*ast.GenDecl)
+			if !ok {
+				continue
+			}
+			for _, sp := range gd.Specs {
+				vs, ok := sp.(*ast.ValueSpec)
+				if !ok {
+					continue
+				}
+				for i, n := range vs.Names {
+					if n.Name != name || i >= len(vs.Values) {
+						continue
+					}
+					cl, ok := vs.Values[i].(*ast.CompositeLit)
+					if !ok {
+						return nil, fmt.Errorf("%s is not a composite literal", name)
+					}
+					var out []uint64
+					for _, e := range cl.Elts {
+						tv, ok := pk.TypesInfo.Types[e]
+						if !ok || tv.Value == nil {
+							return nil, fmt.Errorf("%s has a non-constant element", name)
+						}
+						u, ok := constant.Uint64Val(tv.Value)
+						if !ok {
+							return nil, fmt.Errorf("%s has an element out of range", name)
+						}
+						out = append(out, u)
+					}
+					return out, nil
+				}
+			}
+		}
+	}
+	return nil, fmt.Errorf("%s not found", name)
 }
